@@ -89,18 +89,27 @@ SIGS: dict[str, dict] = {
         mod="Mean", lean="RatioOfMeans.power_from_stats",
         params=[("self", f"RatioCfg {A}"), ("sample_var", A), ("sample_count", A), ("effect_size", A)],
         ret=A, prims=True),
+    # ---- multiplicity.py
+    "mult._Benjamini.adjust": dict(mod="Multiplicity", lean="Benjamini.adjust",
+                                   params=[("self", f"BenjaminiCfg {A}"), ("pvalue", A), ("k", A)], ret=f"{A} × {A}"),
+    "mult._Bonferroni.adjust": dict(mod="Multiplicity", lean="Bonferroni.adjust",
+                                    params=[("self", f"FwerCfg {A}"), ("pvalue", A), ("k", A)], ret=f"{A} × {A}"),
+    "mult._Sidak.adjust": dict(mod="Multiplicity", lean="Sidak.adjust",
+                               params=[("self", f"FwerCfg {A}"), ("pvalue", A), ("k", A)], ret=f"{A} × {A}",
+                               rpow=True),
 }
 
 MODULE_HEADER = {
     "Aggr": "import TeaTasting.Basic.Prelude\n",
     "Mean": "import TeaTasting.Gen.Aggr\n",
+    "Multiplicity": "import TeaTasting.Basic.Prelude\n",
 }
-MODULE_SOURCE = {"aggr": "aggr.py", "mean": "metrics/mean.py"}
+MODULE_SOURCE = {"aggr": "aggr.py", "mean": "metrics/mean.py", "mult": "multiplicity.py"}
 
 FIELD_TYPES = {  # RatioCfg
     "numer": "String", "denom": OS, "numer_covariate": OS, "denom_covariate": OS,
     "alternative": "String", "confidence_level": A, "equal_var": "Bool", "use_t": "Bool",
-    "alpha": A, "ratio": A, "power": A,
+    "alpha": A, "ratio": A, "power": A, "m_adj_": A, "m": A,
 }
 AGGR_METHODS = {"count": "aggr.Aggregates.count", "mean": "aggr.Aggregates.mean", "var": "aggr.Aggregates.var",
                 "cov": "aggr.Aggregates.cov", "ratio_var": "aggr.Aggregates.ratio_var",
@@ -186,6 +195,8 @@ class Tr:
             if isinstance(e.op, ast.Pow):
                 if isinstance(e.right, ast.Constant) and e.right.value == 2:
                     return f"({self.ex(e.left)} ^ 2)"
+                if self.sig.get("rpow"):
+                    return f"(rpow {self.ex(e.left)} {self.ex(e.right)})"
                 raise Unsupported("pow")
             if type(e.op) not in BIN:
                 raise Unsupported(f"operator {type(e.op).__name__}")
@@ -243,6 +254,8 @@ class Tr:
         if isinstance(f, ast.Name):
             if f.id == "abs":
                 return f"|{self.ex(e.args[0])}|"
+            if f.id in ("min", "max") and len(e.args) == 2 and not e.keywords:
+                return f"({f.id} {self.ex(e.args[0])} {self.ex(e.args[1])})"
             if f.id == "float" and isinstance(e.args[0], ast.Constant):
                 table = {"+inf": f"(Bound.posInf : Bound {A})", "inf": f"(Bound.posInf : Bound {A})",
                          "-inf": f"(Bound.negInf : Bound {A})"}
@@ -430,6 +443,8 @@ class Tr:
         sig = self.sig
         params = " ".join(f"({n} : {t})" for n, t in sig["params"])
         pr = f"(P : Prims {A}) " if sig.get("prims") else ""
+        if sig.get("rpow"):
+            pr += f"(rpow : {A} → {A} → {A}) "
         # inside the `some` branch of a match on Option String the name is a String
         body = self.stmts(self.fn.body, "  ")
         return f"def {sig['lean']} {pr}{params} : {sig['ret']} :=\n{body}\n"
@@ -494,6 +509,24 @@ def mean_ctor_map(mods: dict[str, ast.Module]) -> str:
         f"numer_covariate := {out['numer_covariate']}, denom_covariate := {out['denom_covariate']} }}\n")
 
 
+def benjamini_m_adj(mods: dict[str, ast.Module]) -> str:
+    """`_Benjamini.__init__`:  m_adj_ = m * sum(1 / i for i in range(1, m + 1)) if arbitrary_dependence else m"""
+    fn = find(mods, "mult._Benjamini.__init__")
+    tgt = [n for n in ast.walk(fn) if isinstance(n, ast.Assign) and len(n.targets) == 1
+           and _is_self_attr(n.targets[0], "m_adj_")]
+    alpha_ok = any(isinstance(n, ast.Assign) and _is_self_attr(n.targets[0], "alpha")
+                   and isinstance(n.value, ast.Name) and n.value.id == "alpha" for n in ast.walk(fn))
+    if len(tgt) != 1 or not alpha_ok:
+        raise Unsupported("_Benjamini.__init__ shape")
+    v = tgt[0].value
+    want = "m * sum((1 / i for i in range(1, m + 1))) if arbitrary_dependence else m"
+    if ast.unparse(v) != want:
+        raise Unsupported(f"_Benjamini.__init__: m_adj_ = {ast.unparse(v)}")
+    return (f"-- mult._Benjamini.__init__  (line {fn.lineno})\n"
+            f"def Benjamini.mk (alpha : {A}) (m : ℕ) (arbitrary_dependence : Bool) : BenjaminiCfg {A} :=\n"
+            f"  {{ alpha := alpha, m_adj_ := if arbitrary_dependence = true then (m : {A}) * harmonic m else (m : {A}) }}\n")
+
+
 def generate(src: Path) -> dict[str, str]:
     """Return {module name: lean source} or raise Unsupported."""
     mods = {m: ast.parse((src / f).read_text()) for m, f in MODULE_SOURCE.items()}
@@ -509,6 +542,7 @@ def generate(src: Path) -> dict[str, str]:
         if tr.guards:
             guards[key] = tr.guards
     out["Mean"].append(mean_ctor_map(mods))
+    out["Multiplicity"].append(benjamini_m_adj(mods))
     files = {}
     for mod, parts in out.items():
         hdr = ("-- GENERATED by harness/translate.py from /repo/src/tea_tasting — do not edit.\n"
